@@ -901,9 +901,9 @@ Proof.
     + destruct (negb (shmf (last (x :: r) (slice_of_slot o t)))); [discriminate|].
       destruct (st_hasnext t).
       * apply IH in H. eapply same_data_trans; [|exact H].
-        eapply same_data_trans; [apply same_data_upd_hdr; reflexivity|apply same_data_recycle].
+        eapply same_data_trans; [|apply same_data_recycle]; apply same_data_upd_hdr; reflexivity.
       * injection H as <- _.
-        eapply same_data_trans; [apply same_data_upd_hdr; reflexivity|apply same_data_recycle].
+        eapply same_data_trans; [|apply same_data_recycle]; apply same_data_upd_hdr; reflexivity.
   - destruct (st_hasnext t); [apply IH in H; exact H|injection H as <- _; apply same_data_refl].
 Qed.
 
